@@ -29,11 +29,12 @@ var stringPoolRaw = []string{
 }
 
 type codec[T comparable] struct {
-	name string // "string", "int", "rank"
+	name string // "string", "int", "rank", "tstring", "tint"
 	pool []T
 	idx  map[T]int
 	nat  func(a, b T) int
 	show func(T) string
+	ties map[string]func(a, b T) int // tying comparators (total preorders coarser than equality)
 }
 
 func newCodec[T comparable](name string, pool []T, nat func(a, b T) int, show func(T) string) *codec[T] {
@@ -62,11 +63,27 @@ func (c *codec[T]) encs(rs []int) []T {
 // foreign atoms (not in the pool) get rank -1; the driver remembers their text
 const foreignRank = -1
 
-func (c *codec[T]) cmpFn(rev bool) func(a, b T) int {
-	if rev {
-		return func(a, b T) int { return c.nat(b, a) }
+func (c *codec[T]) cmpFn(rev bool) func(a, b T) int { return c.cmpCfg(rev, "") }
+
+// cmpCfg: the natural order or the named tying comparator, possibly reversed
+func (c *codec[T]) cmpCfg(rev bool, tie string) func(a, b T) int {
+	f := c.nat
+	if tie != "" {
+		f = c.ties[tie]
+		if f == nil {
+			panic("strprobe: no comparator " + tie + " for " + c.name)
+		}
 	}
-	return c.nat
+	if rev {
+		return func(a, b T) int { return f(b, a) }
+	}
+	return f
+}
+
+// rankCmp: the same comparator on ranks (for the reference model)
+func (c *codec[T]) rankCmp(rev bool, tie string) func(a, b int) int {
+	f := c.cmpCfg(rev, tie)
+	return func(a, b int) int { return f(c.pool[a], c.pool[b]) }
 }
 
 func showString(s string) string {
@@ -80,8 +97,77 @@ var (
 	strCodec  *codec[string]
 	intCodec  *codec[int]
 	rankCodec *codec[int]
+	tstrCodec *codec[string] // pools of the relational (tying comparator) cases
+	tintCodec *codec[int]
 	poolN     int
 )
+
+// the string pool of the tying-comparator cases: many case variants, equal lengths, equal first bytes
+var tieStringPoolRaw = []string{
+	"", "a", "A", "b", "B", "c", "aa", "aA", "Aa", "AA", "ab", "AB", "id", "ID", "Id", "iD",
+	"key", "Key", "KEY", "kEy", "1", "10", "2", "-1", "é", "É", "true", "TRUE", "True", "null", "NULL",
+	"a b", "A B", "A b", `"`, `\`, "<", "日本語", "\n", "\u2028",
+}
+
+var stringTies = map[string]func(a, b string) int{
+	"casefold":  func(a, b string) int { return cmp.Compare(strings.ToLower(a), strings.ToLower(b)) },
+	"length":    func(a, b string) int { return cmp.Compare(len(a), len(b)) },
+	"firstbyte": func(a, b string) int { return cmp.Compare(firstByte(a), firstByte(b)) },
+}
+
+var intTies = map[string]func(a, b int) int{
+	"div3": func(a, b int) int { return cmp.Compare(a/3, b/3) },
+	"abs":  func(a, b int) int { return cmp.Compare(absInt(a), absInt(b)) },
+}
+
+func firstByte(s string) int {
+	if s == "" {
+		return -1
+	}
+	return int(s[0])
+}
+
+func absInt(x int) int {
+	if x < 0 {
+		return -x
+	}
+	return x
+}
+
+func isStr(typ string) bool { return typ == "string" || typ == "tstring" }
+
+func strOf(typ string) *codec[string] {
+	if typ == "tstring" {
+		return tstrCodec
+	}
+	return strCodec
+}
+
+func intOf(typ string) *codec[int] {
+	switch typ {
+	case "tint":
+		return tintCodec
+	case "rank":
+		return rankCodec
+	}
+	return intCodec
+}
+
+// tieNames of an atom type, sorted
+func tieNames(typ string) []string {
+	if isStr(typ) {
+		return []string{"casefold", "firstbyte", "length"}
+	}
+	return []string{"abs", "div3"}
+}
+
+// rankCmpOf: comparator on the ranks of the given atom type
+func rankCmpOf(typ string, rev bool, tie string) func(a, b int) int {
+	if isStr(typ) {
+		return strOf(typ).rankCmp(rev, tie)
+	}
+	return intOf(typ).rankCmp(rev, tie)
+}
 
 func init() {
 	strCodec = newCodec("string", stringPoolRaw, cmp.Compare[string], showString)
@@ -109,6 +195,18 @@ func init() {
 		rk[i] = i
 	}
 	rankCodec = newCodec("rank", rk, cmp.Compare[int], strconv.Itoa)
+	strCodec.ties, intCodec.ties, rankCodec.ties = stringTies, intTies, intTies
+	if len(tieStringPoolRaw) != poolN {
+		panic(fmt.Sprintf("strprobe: the tie string pool has %d strings, want %d", len(tieStringPoolRaw), poolN))
+	}
+	tstrCodec = newCodec("tstring", tieStringPoolRaw, cmp.Compare[string], showString)
+	tstrCodec.ties = stringTies
+	ti := make([]int, poolN)
+	for i := range ti {
+		ti[i] = i - poolN/2 // -20..19
+	}
+	tintCodec = newCodec("tint", ti, cmp.Compare[int], strconv.Itoa)
+	tintCodec.ties = intTies
 }
 
 // atomText renders the atom of the given rank for histories and details
@@ -116,13 +214,10 @@ func atomText(typ string, r int) string {
 	if r < 0 || r >= poolN {
 		return fmt.Sprintf("<foreign %d>", r)
 	}
-	switch typ {
-	case "string":
-		return showString(strCodec.pool[r])
-	case "int":
-		return strconv.Itoa(intCodec.pool[r])
+	if isStr(typ) {
+		return showString(strOf(typ).pool[r])
 	}
-	return strconv.Itoa(r)
+	return strconv.Itoa(intOf(typ).pool[r])
 }
 
 func atomsText(typ string, rs []int) string {
